@@ -125,6 +125,17 @@ def events(log):
 
 
 fails, n, n_plain = [], 0, 0
+
+
+def cause(src):
+    """why the decompiled source is not a Python program, for the two causes that are recorded findings (computed on the whole source)"""
+    import re
+    if "<ast.Set object at" in src:
+        return "frozenset-constant"
+    if re.search(r"(?m)^from \S+ import \w+\.\w[\w.]*$", src):
+        return "dotted-import-name"
+    return None
+
 UNSUPPORTED = {}
 
 
@@ -151,7 +162,7 @@ def check(name, data, original=None, plain=False):
         try:
             got = run_decompiled(src, log, real=True)
         except Exception as e:  # noqa
-            fails.append({"program": name, "bytes": data.hex()[:300], "kind": "decompiled-source-fails",
+            fails.append({"program": name, "bytes": data.hex()[:300], "kind": "decompiled-source-fails", "note": cause(src),
                           "what": f"running the decompiled source raises {type(e).__name__}: {e}"[:200], "source": src[:300]})
             return
         a, b = strip_ids(norm(original)), strip_ids(norm(got))
@@ -163,7 +174,7 @@ def check(name, data, original=None, plain=False):
         got = run_decompiled(src, log)
     except Exception as e:  # noqa
         fails.append({"program": name, "bytes": data.hex()[:300], "kind": "decompiled-source-fails", "what": f"running the decompiled source raises {type(e).__name__}: {e}"[:200],
-                      "source": src[:300]})
+                      "source": src[:300], "note": cause(src)})
         return
     a, b = norm(val), norm(got)
     if a != b:
